@@ -33,7 +33,7 @@ fn describe() -> Describe {
                {0x1000,0x2000,0x2008}, filesz {0,3,0x10}, memsz {filesz, filesz+5}, flags {R,RW,RX,RWX}, a non-load header \
                interleaved x symbol sets (symtab and dynsym: defined function, undefined function, function with value 0, object, \
                a duplicate, a PLT relocation target) x entry {inside a segment and not a symbol, equal to a symbol} x user entries \
-               x base {0, 0x10000, 0x7f0000000000}. Oracle = the abstract description: expected byte/permission/unmapped for every \
+               x base {0, 2, 6 (smaller than the distance between symbols, so that rebased and un-rebased addresses collide), 0x10000, 0x40000000 / 0x7f0000000000}. Oracle = the abstract description: expected byte/permission/unmapped for every \
                address around every segment, architecture and endianness, the entry set; and the differential clause: everything \
                reported at base B equals the base-0 report + B (sections, function entries, symbols, program entry). \
                Linking (ElfLinker; EM_386, and EM_MIPS in both byte orders): every topology of {main, libA.so, libB.so} in {main->A; main->A,B; main->A->B; \
@@ -570,7 +570,7 @@ fn run(ctx: &Ctx) -> Acc {
             continue;
         }
         ctx.trace(|| format!("image\t{}", image_json(im)));
-        let bases: Vec<u64> = if im.is64 { vec![0, 0x10000, 0x7f00_0000_0000] } else { vec![0, 0x10000, 0x4000_0000] };
+        let bases: Vec<u64> = if im.is64 { vec![0, 2, 6, 0x10000, 0x7f00_0000_0000] } else { vec![0, 2, 6, 0x10000, 0x4000_0000] };
         check(&mut acc, im, &bases);
     }
     // linked objects (ElfLinker)
@@ -605,7 +605,7 @@ fn replay(case: &Value) -> Acc {
         return acc;
     }
     let im = image_parse(case);
-    let bases: Vec<u64> = if im.is64 { vec![0, 0x10000, 0x7f00_0000_0000] } else { vec![0, 0x10000, 0x4000_0000] };
+    let bases: Vec<u64> = if im.is64 { vec![0, 2, 6, 0x10000, 0x7f00_0000_0000] } else { vec![0, 2, 6, 0x10000, 0x4000_0000] };
     check(&mut acc, &im, &bases);
     acc
 }
